@@ -581,6 +581,37 @@ theorem C20_removed_source [DecidableEq α] (E : Sync.Env α) (k : KWorld α) (p
   · intro t v ht; rw [(assignK_w E k' t v hq').1, hw']; exact a6 t v ht
   · intro t op ht; rw [(mutateK_w E k' t op hq').1, hw']; exact a7 t op ht
 
+/-- **The weak-reference callback is the source, and it is `World.kill`.**
+`harness/translate/synclink.py` translates the nested
+`_sync_trait_listener_deleted(ref, info)` of `sync_trait` (stored with every table
+entry) into the `CbStmt` of `Generated/SyncLink.lean`.
+(1) For every `__sync_trait__` (lock table `""` and partner tables) and every
+collected partner, its interpretation raises nothing and yields `cbModel`: in every
+partner table the dead partner's entries go, tables left empty go, the lock table
+is untouched (the `key != ""` guard).
+(2) For every world, every collected object `o`, every survivor `s ≠ o` and every
+list of trait names, running the callback on `s`'s tables gives exactly `s`'s
+tables after `World.kill o`; and (3) `o`'s own tables are gone.  So `World.kill` —
+hence `killK`, `C20_partner_dead`, `C20_partner_dead_source` — is: the interpreted
+callback on every survivor, plus dropping the dead object's own tables. -/
+theorem C20_callback_is_source (dead : Nat) (i : Info) (names : List Name) (w : World α) (o : Nat) :
+    interpCb dead Generated.SyncLink.listenerDeleted i = .ok (cbModel dead i) ∧
+    (∀ s, s ≠ o → interpCb o Generated.SyncLink.listenerDeleted (infoOf names w s) =
+      .ok (infoOf names (w.kill o) s)) ∧
+    (infoOf names (w.kill o) o).tabs = [] :=
+  ⟨cbModel_is_source dead i,
+   fun s hs => by rw [cbModel_is_source, callback_is_kill names w o s hs],
+   own_tables_dropped names w o⟩
+
+/-- Non-vacuity: a hub with three partners, the middle one collected: the
+interpreted callback on the hub's tables leaves the two others; the lock table
+stays. -/
+example :
+    (interpCb 2 Generated.SyncLink.listenerDeleted
+      { lock := some ["y"], tabs := [("y", [(1, "y"), (2, "y"), (3, "y")]), ("x", [(2, "x")])] }).toOption.map
+      (fun i => (i.lock, i.tabs)) =
+    some (some ["y"], [("y", [(1, "y"), (3, "y")])]) := by decide
+
 /-- `C20_partner_dead` about the interpreted source. -/
 theorem C20_partner_dead_source [DecidableEq α] (E : Sync.Env α) (k : KWorld α) (o : Nat) (hq : Quiet k)
     (hL : k.w.locked = []) :
